@@ -51,6 +51,7 @@ type storeT struct {
 	Type, Name string
 	Certs      []string // root inter leaf other
 	Exists     bool
+	LinkTo     string // non-empty: the store directory is a symbolic link to this other store's directory ("type/name")
 }
 
 func main() {
@@ -117,6 +118,32 @@ func main() {
 				os.WriteFile(filepath.Join(d, c+".crt"), certs[c].Raw, 0o644)
 			}
 		}
+		// named stores that are symbolic links to a store of another type or name: such a store cannot be loaded, and
+		// what the link points at (a tsa or signingAuthority store, say) must not leak into the type that lists it
+		if len(stores) > 0 && rng.Intn(3) == 0 {
+			real := len(stores)
+			for _, nm := range append(names, "missing") {
+				for _, t := range types {
+					if rng.Intn(4) != 0 {
+						continue
+					}
+					taken := false
+					for _, st := range stores {
+						taken = taken || (st.Type == t && st.Name == nm)
+					}
+					if taken {
+						continue
+					}
+					tgt := stores[rng.Intn(real)]
+					d := filepath.Join(base, "truststore", "x509", t, nm)
+					os.MkdirAll(filepath.Dir(d), 0o755)
+					if os.Symlink(filepath.Join("..", tgt.Type, tgt.Name), d) == nil {
+						stores = append(stores, storeT{Type: t, Name: nm, Exists: true, LinkTo: tgt.Type + "/" + tgt.Name})
+						r.Event("linked-store")
+					}
+				}
+			}
+		}
 		find := func(t, nm string) *storeT {
 			for i := range stores {
 				if stores[i].Type == t && stores[i].Name == nm {
@@ -126,7 +153,7 @@ func main() {
 			return nil
 		}
 		loadable := func(st *storeT) bool {
-			if st == nil || len(st.Certs) == 0 {
+			if st == nil || len(st.Certs) == 0 || st.LinkTo != "" {
 				return false
 			}
 			for _, c := range st.Certs {
